@@ -32,7 +32,7 @@ LEVEL_TEXT = ('Proved in Lean for both writers, every data size, fresh/existing 
               'full text is stored; dry-run is the identity; for two concurrent writers under ANY schedule and ANY fault scripts '
               'the destination is never partial. Real kernel behaviour (atomic rename, unique mkstemp names, crashes, fsync) is '
               'assumed, not modelled (partial: runtime). The model is tied to the code by exhaustive single-fault injection at '
-              'every call site x short-write patterns x fresh/existing x sizes, and by executing two-writer schedules.')
+              'every call site x short-write patterns x fresh/existing x sizes, by executing two-writer schedules, and by running the real writers in a child process under a kernel file-size limit (a genuinely short write followed by EFBIG, no proxy in between).')
 LEVEL_NOTE = ('Trusted: Lean kernel + standard axioms; hand-written small-step model (Model/Writer.lean) tied by the fault-proxy '
               'correspondence; POSIX rename atomicity and mkstemp uniqueness; CPython os/tempfile/py_compile.')
 ASSUMPTIONS = [
